@@ -67,17 +67,7 @@ pub fn run(ctx: Ctx) -> ! {
             );
         }
     };
-    let mut sum = explore::sweep(&eras, &|base| base.starts_with("B3"), bounds, &visit);
-    // the same spend with the script on a reference input (Babbage, Conway): every single
-    // deviation and pair, same oracle
-    crate::quiet::silence_stderr();
-    for era in [Era::Babbage, Era::Conway] {
-        let base = crate::bases::b3ref(era);
-        let devs = crate::devs::deviations(&base, bounds.wits_single);
-        let part = explore::explore_base(&base, &base.label(), &devs, &crate::txlab::build, bounds, &visit);
-        sum = sum.merge_pub(part);
-    }
-    crate::quiet::restore_stderr();
+    let sum = explore::sweep(&eras, &|base| base.starts_with("B3"), bounds, &visit);
     let s = stats.lock().unwrap().clone();
     for (era, form) in [("alonzo", "list"), ("babbage", "list"), ("conway", "list"), ("conway", "map")] {
         let e = s.get(&(era.to_string(), form.to_string())).copied().unwrap_or_default();
